@@ -1,0 +1,9 @@
+//go:build verif
+
+package tcp
+
+// Contracts for the verification machinery in /verif (comment-only; see /verif/DESIGN.md).
+
+//@ property C17
+// tcpTransport adds nothing to the byte path: all I/O methods are the wrapper's own.
+//@ promoted tcpTransport via Transport: Read Write Writev Flush Close
